@@ -163,5 +163,19 @@ CLAIMS["C04"] = {
     "technique": "per-iteration effect analysis of emission loops + decision-table extraction + path-fact conditions",
     "ref": "DESIGN.md section 5 C04",
 }
+CLAIMS["C11"] = {
+    "text": "Decides the bookkeeping side of closure for all packages: every path that emits a class name as a type (plain or "
+            "generic) or as a superclass first registers an import for the same class's qualified name; the names exempt "
+            "from bookkeeping are compared with the names translated to Safe-DS built-ins (known finding: all builtins.* are "
+            "exempt, five are translated); the same-module suppression, specialised over six module-path relations, is "
+            "segment exact; a class not found in the package is added to the imports and to the placeholder set together and "
+            "every member of that set gets exactly one placeholder call; module paths are converted the same way at the "
+            "package line of module stubs, re-export stubs, placeholder stubs and at the import source; every registered "
+            "import becomes one sorted line. Not decided: that the package named by an import is the package of the file "
+            "that declares the class (two shortest-path heuristics over strings).",
+    "note": TRUST,
+    "technique": "must-call analysis per emitting branch + specialisation of the import bookkeeping + pipeline comparison",
+    "ref": "DESIGN.md section 5 C11",
+}
 
 NOT_APPLICABLE = {}
